@@ -22,7 +22,13 @@ Definition s_img : str := [105; 109; 103].
 Definition s_br : str := [98; 114].
 Definition s_hr : str := [104; 114].
 
-Definition phrasing_names : list str := [s_a; s_em; s_strong; s_code].
+Definition s_del : str := [100; 101; 108].
+Definition s_mark : str := [109; 97; 114; 107].
+Definition s_ins : str := [105; 110; 115].
+Definition s_sup : str := [115; 117; 112].
+Definition s_sub : str := [115; 117; 98].
+Definition ext_tags : list str := [s_del; s_mark; s_ins; s_sup; s_sub; s_em].
+Definition phrasing_names : list str := [s_a; s_em; s_strong; s_code; s_del; s_mark; s_ins; s_sup; s_sub].
 Definition is_heading (n : str) : Prop := exists z : Z, n = 104 :: str_of_Z z.
 (* elements allowed where only phrasing content may occur / anywhere *)
 Definition elem_ok (ph : bool) (n : str) : Prop :=
@@ -70,7 +76,7 @@ Proof.
   intros [[H|[_ [H|(z & ->)]]]|[H|[_ ->]]].
   - exact (L phrasing_names eq_refl n H).
   - exact (L [s_p; s_pre; s_blockquote; s_ul; s_ol; s_li] eq_refl n H).
-  - constructor; [lia|]. apply (str_of_Z_free {| r_escape := true; r_safe_url := fun u => u; r_tables := UtilGen.T |}).
+  - constructor; [lia|]. apply str_of_Z_free.
   - exact (L [s_img; s_br] eq_refl n H).
   - exact (L [s_hr] eq_refl s_hr (or_introl eq_refl)).
 Qed.
@@ -117,7 +123,10 @@ Local Arguments strip_p : simpl never.
 Section WN.
 Variable E : renv.
 Variable ops : list esc_op.
+Variable xt : str -> template.
 Hypothesis Hesc : r_escape E = true.
+(* a plugin render function wraps its children in one phrasing element *)
+Hypothesis xt_render : forall name ch, exists tag, In tag ext_tags /\ render E ops (xt name) [PStr ch] = [60] ++ tag ++ [62] ++ ch ++ [60; 47] ++ tag ++ [62].
 Hypothesis esc_free : forall s, special_free (run_escape ops true s).
 Hypothesis url_free : forall u, special_free (r_safe_url E u).
 Hypothesis ent_free : forall s, special_free (safe_entity (r_tables E) ops s).
@@ -154,60 +163,66 @@ Lemma render_inline_html raw : render E ops tmpl_html_inline_html [PStr raw] = r
 Proof. unfold render. cbn. rewrite Hesc. cbn. apply app_nil_r. Qed.
 
 (* ---- inline tokens: phrasing content ---- *)
-Lemma tok_html_n : forall n t, (tsize t <= n)%nat -> html true (html_tok E ops t).
+Lemma tok_html_n : forall n t, (tsize t <= n)%nat -> html true (html_tok E ops xt t).
 Proof.
   induction n as [|n IH]; intros t Hn; [destruct t; cbn in Hn; lia|].
-  assert (Hch : forall c, In c (tok_children t) -> html true (html_tok E ops c)).
-  { intros c Hin. apply IH. pose proof (in_tsize E _ _ Hin) as Hs. destruct t; cbn [tok_children] in *; try contradiction; cbn [tsize] in Hn; lia. }
-  assert (Hinner : html true (flat_map (html_tok E ops) (tok_children t))) by (apply html_flat_map; exact Hch).
-  rewrite html_tok_unfold. destruct t as [raw|raw|raw| | |ch|ch|img ch url title tk ref]; cbn [tok_args tok_children fst snd] in *.
+  assert (Hch : forall c, In c (tok_children t) -> html true (html_tok E ops xt c)).
+  { intros c Hin. apply IH. pose proof (in_tsize _ _ Hin) as Hs. destruct t; cbn [tok_children] in *; try contradiction; cbn [tsize] in Hn; lia. }
+  assert (Hinner : html true (flat_map (html_tok E ops xt) (tok_children t))) by (apply html_flat_map; exact Hch).
+  rewrite html_tok_unfold. destruct t as [raw|raw|raw| | |ch|ch|img ch url title tk ref|name ch]; cbn [tok_args tok_children fst snd] in *.
   - (* text *) rewrite render_text. apply H_text. apply esc_free.
   - (* codespan *) apply (mk_elem true s_code [] (run_escape ops true raw) []); [norm_eq|left; cbn; tauto|constructor|apply H_text; apply esc_free|constructor].
   - (* inline_html *) rewrite render_inline_html. apply H_text. apply esc_free.
   - (* linebreak *) apply (mk_void true s_br [] [10]); [reflexivity|left; cbn; tauto|constructor|apply free_nl].
   - (* softbreak *) apply H_text. apply free_nl.
-  - (* emphasis *) apply (mk_elem true s_em [] (flat_map (html_tok E ops) ch) []); [norm_eq|left; cbn; tauto|constructor|exact Hinner|constructor].
-  - (* strong *) apply (mk_elem true s_strong [] (flat_map (html_tok E ops) ch) []); [norm_eq|left; cbn; tauto|constructor|exact Hinner|constructor].
+  - (* emphasis *) apply (mk_elem true s_em [] (flat_map (html_tok E ops xt) ch) []); [norm_eq|left; cbn; tauto|constructor|exact Hinner|constructor].
+  - (* strong *) apply (mk_elem true s_strong [] (flat_map (html_tok E ops xt) ch) []); [norm_eq|left; cbn; tauto|constructor|exact Hinner|constructor].
   - (* link / image *)
     destruct img.
     + destruct title as [[|c0 tl]|].
-      * apply (mk_void true s_img ([32] ++ [115; 114; 99] ++ [61; 34] ++ r_safe_url E url ++ [34] ++ ([32] ++ [97; 108; 116] ++ [61; 34] ++ run_escape ops true (striptags_model (flat_map (html_tok E ops) ch)) ++ [34] ++ [])) []);
+      * apply (mk_void true s_img ([32] ++ [115; 114; 99] ++ [61; 34] ++ r_safe_url E url ++ [34] ++ ([32] ++ [97; 108; 116] ++ [61; 34] ++ run_escape ops true (striptags_model (flat_map (html_tok E ops xt) ch)) ++ [34] ++ [])) []);
           [norm_eq|left; cbn; tauto| |constructor].
         apply A_cons; [lit_free|apply url_free|]. apply A_cons; [lit_free|apply esc_free|constructor].
-      * apply (mk_void true s_img ([32] ++ [115; 114; 99] ++ [61; 34] ++ r_safe_url E url ++ [34] ++ ([32] ++ [97; 108; 116] ++ [61; 34] ++ run_escape ops true (striptags_model (flat_map (html_tok E ops) ch)) ++ [34] ++ ([32] ++ [116; 105; 116; 108; 101] ++ [61; 34] ++ safe_entity (r_tables E) ops (c0 :: tl) ++ [34] ++ []))) []);
+      * apply (mk_void true s_img ([32] ++ [115; 114; 99] ++ [61; 34] ++ r_safe_url E url ++ [34] ++ ([32] ++ [97; 108; 116] ++ [61; 34] ++ run_escape ops true (striptags_model (flat_map (html_tok E ops xt) ch)) ++ [34] ++ ([32] ++ [116; 105; 116; 108; 101] ++ [61; 34] ++ safe_entity (r_tables E) ops (c0 :: tl) ++ [34] ++ []))) []);
           [norm_eq|left; cbn; tauto| |constructor].
         apply A_cons; [lit_free|apply url_free|]. apply A_cons; [lit_free|apply esc_free|]. apply A_cons; [lit_free|apply ent_free|constructor].
-      * apply (mk_void true s_img ([32] ++ [115; 114; 99] ++ [61; 34] ++ r_safe_url E url ++ [34] ++ ([32] ++ [97; 108; 116] ++ [61; 34] ++ run_escape ops true (striptags_model (flat_map (html_tok E ops) ch)) ++ [34] ++ [])) []);
+      * apply (mk_void true s_img ([32] ++ [115; 114; 99] ++ [61; 34] ++ r_safe_url E url ++ [34] ++ ([32] ++ [97; 108; 116] ++ [61; 34] ++ run_escape ops true (striptags_model (flat_map (html_tok E ops xt) ch)) ++ [34] ++ [])) []);
           [norm_eq|left; cbn; tauto| |constructor].
         apply A_cons; [lit_free|apply url_free|]. apply A_cons; [lit_free|apply esc_free|constructor].
     + destruct title as [[|c0 tl]|].
-      * apply (mk_elem true s_a ([32] ++ [104; 114; 101; 102] ++ [61; 34] ++ r_safe_url E url ++ [34] ++ []) (flat_map (html_tok E ops) ch) []);
+      * apply (mk_elem true s_a ([32] ++ [104; 114; 101; 102] ++ [61; 34] ++ r_safe_url E url ++ [34] ++ []) (flat_map (html_tok E ops xt) ch) []);
           [norm_eq|left; cbn; tauto| |exact Hinner|constructor].
         apply A_cons; [lit_free|apply url_free|constructor].
-      * apply (mk_elem true s_a ([32] ++ [104; 114; 101; 102] ++ [61; 34] ++ r_safe_url E url ++ [34] ++ ([32] ++ [116; 105; 116; 108; 101] ++ [61; 34] ++ safe_entity (r_tables E) ops (c0 :: tl) ++ [34] ++ [])) (flat_map (html_tok E ops) ch) []);
+      * apply (mk_elem true s_a ([32] ++ [104; 114; 101; 102] ++ [61; 34] ++ r_safe_url E url ++ [34] ++ ([32] ++ [116; 105; 116; 108; 101] ++ [61; 34] ++ safe_entity (r_tables E) ops (c0 :: tl) ++ [34] ++ [])) (flat_map (html_tok E ops xt) ch) []);
           [norm_eq|left; cbn; tauto| |exact Hinner|constructor].
         apply A_cons; [lit_free|apply url_free|]. apply A_cons; [lit_free|apply ent_free|constructor].
-      * apply (mk_elem true s_a ([32] ++ [104; 114; 101; 102] ++ [61; 34] ++ r_safe_url E url ++ [34] ++ []) (flat_map (html_tok E ops) ch) []);
+      * apply (mk_elem true s_a ([32] ++ [104; 114; 101; 102] ++ [61; 34] ++ r_safe_url E url ++ [34] ++ []) (flat_map (html_tok E ops xt) ch) []);
           [norm_eq|left; cbn; tauto| |exact Hinner|constructor].
         apply A_cons; [lit_free|apply url_free|constructor].
+  - (* plugin token *)
+    destruct (xt_render name (flat_map (html_tok E ops xt) ch)) as (tag & Hin & ->).
+    apply (H_elem true tag [] (flat_map (html_tok E ops xt) ch)); [|constructor|].
+    + left. unfold ext_tags in Hin. unfold phrasing_names. cbn in Hin |- *. intuition.
+    + assert (Hi : inner_ph tag = true) by (cbn in Hin; destruct Hin as [<-|[<-|[<-|[<-|[<-|[<-|[]]]]]]]; reflexivity).
+      rewrite Hi. exact Hinner.
 Qed.
 
-Theorem tok_html t : html true (html_tok E ops t).
+Theorem tok_html t : html true (html_tok E ops xt t).
 Proof. apply (tok_html_n (tsize t)). lia. Qed.
 
-Lemma toks_html l : html true (html_toks E ops l).
+Lemma toks_html l : html true (html_toks E ops xt l).
 Proof. apply html_flat_map. intros t _. apply tok_html. Qed.
 
 (* ---- block nodes: flow content ---- *)
 Lemma first_word_free s : special_free s -> special_free (first_word (r_tables E) s).
 Proof. intros H. exact (free_incl _ _ (first_word_incl (r_tables E) s) H). Qed.
 
-Lemma node_html_n : forall k n, (nsize n <= k)%nat -> html false (html_node E ops n).
+Lemma node_html_n : forall k n, (nsize n <= k)%nat -> html false (html_node E ops xt n).
 Proof.
   induction k as [|k IH]; intros n Hk; [destruct n; cbn in Hk; lia|].
-  assert (Hch : forall c, In c (node_children n) -> html false (html_node E ops c)).
-  { intros c Hin. apply IH. pose proof (in_nsize E _ _ Hin) as Hs. destruct n; cbn [node_children] in *; try contradiction; cbn [nsize] in Hk; lia. }
-  rewrite (html_node_unfold E ops).
+  assert (Hch : forall c, In c (node_children n) -> html false (html_node E ops xt c)).
+  { intros c Hin. apply IH. pose proof (in_nsize _ _ Hin) as Hs. destruct n; cbn [node_children] in *; try contradiction; cbn [nsize] in Hk; lia. }
+  rewrite (html_node_unfold E ops xt).
   destruct n as [| |raw fenced marker info|ch level setext|ch|ch|ch|items tight bullet depth ordered start|ch|raw]; cbn [node_args node_inner node_children fst snd] in *.
   - (* blank line *) apply H_text. constructor.
   - (* thematic break *) apply (mk_void false s_hr [] [10]); [reflexivity|right; split; reflexivity|constructor|apply free_nl].
@@ -228,32 +243,32 @@ Proof.
         [norm_eq|right; split; [reflexivity|left; cbn; tauto]|constructor| |apply free_nl].
       apply (H_elem true s_code [] (run_escape ops true raw)); [left; cbn; tauto|constructor|apply H_text; apply esc_free].
   - (* heading *)
-    apply (mk_elem false (104 :: str_of_Z (Z.of_nat level)) [] (html_toks E ops ch) [10]);
+    apply (mk_elem false (104 :: str_of_Z (Z.of_nat level)) [] (html_toks E ops xt ch) [10]);
       [norm_eq|right; split; [reflexivity|right; eexists; reflexivity]|constructor|apply toks_html|apply free_nl].
   - (* paragraph *)
-    apply (mk_elem false s_p [] (html_toks E ops ch) [10]); [norm_eq|right; split; [reflexivity|left; cbn; tauto]|constructor|apply toks_html|apply free_nl].
+    apply (mk_elem false s_p [] (html_toks E ops xt ch) [10]); [norm_eq|right; split; [reflexivity|left; cbn; tauto]|constructor|apply toks_html|apply free_nl].
   - (* block text *)
     unfold render. cbn. rewrite app_nil_r. apply html_weaken. apply toks_html.
   - (* block quote *)
-    apply (mk_elem false s_blockquote [] ([10] ++ flat_map (html_node E ops) ch) [10]);
+    apply (mk_elem false s_blockquote [] ([10] ++ flat_map (html_node E ops xt) ch) [10]);
       [norm_eq|right; split; [reflexivity|left; cbn; tauto]|constructor| |apply free_nl].
     apply H_app; [apply H_text; apply free_nl|apply html_flat_map; exact Hch].
   - (* list *)
     destruct ordered.
     + destruct start as [z|].
-      * apply (mk_elem false s_ol ([32] ++ [115; 116; 97; 114; 116] ++ [61; 34] ++ str_of_Z z ++ [34] ++ []) ([10] ++ flat_map (html_node E ops) items) [10]);
+      * apply (mk_elem false s_ol ([32] ++ [115; 116; 97; 114; 116] ++ [61; 34] ++ str_of_Z z ++ [34] ++ []) ([10] ++ flat_map (html_node E ops xt) items) [10]);
           [norm_eq|right; split; [reflexivity|left; cbn; tauto]| | |apply free_nl].
-        -- apply A_cons; [lit_free|apply (str_of_Z_free E)|constructor].
+        -- apply A_cons; [lit_free|apply str_of_Z_free|constructor].
         -- apply H_app; [apply H_text; apply free_nl|apply html_flat_map; exact Hch].
-      * apply (mk_elem false s_ol [] ([10] ++ flat_map (html_node E ops) items) [10]);
+      * apply (mk_elem false s_ol [] ([10] ++ flat_map (html_node E ops xt) items) [10]);
           [norm_eq|right; split; [reflexivity|left; cbn; tauto]|constructor| |apply free_nl].
         apply H_app; [apply H_text; apply free_nl|apply html_flat_map; exact Hch].
     + destruct start as [z|];
-        (apply (mk_elem false s_ul [] ([10] ++ flat_map (html_node E ops) items) [10]);
+        (apply (mk_elem false s_ul [] ([10] ++ flat_map (html_node E ops xt) items) [10]);
          [norm_eq|right; split; [reflexivity|left; cbn; tauto]|constructor| |apply free_nl];
          apply H_app; [apply H_text; apply free_nl|apply html_flat_map; exact Hch]).
   - (* list item *)
-    apply (mk_elem false s_li [] (flat_map (html_node E ops) ch) [10]);
+    apply (mk_elem false s_li [] (flat_map (html_node E ops xt) ch) [10]);
       [norm_eq|right; split; [reflexivity|left; cbn; tauto]|constructor|apply html_flat_map; exact Hch|apply free_nl].
   - (* html block, escaped *)
     unfold render. cbn. rewrite Hesc. cbn.
@@ -261,10 +276,10 @@ Proof.
       [norm_eq|right; split; [reflexivity|left; cbn; tauto]|constructor|apply H_text; apply esc_free|apply free_nl].
 Qed.
 
-Theorem node_html n : html false (html_node E ops n).
+Theorem node_html n : html false (html_node E ops xt n).
 Proof. apply (node_html_n (nsize n)). lia. Qed.
 
 (* every document of the core model renders to a string of the balanced grammar *)
-Theorem doc_html ns : html false (html_doc E ops ns).
+Theorem doc_html ns : html false (html_doc E ops xt ns).
 Proof. apply html_flat_map. intros n _. apply node_html. Qed.
 End WN.
